@@ -10,13 +10,16 @@ CONSTANTS RoleSet, InitStates, DtlsSet, KxSet
 E == "e0"
 
 RecSpace ==
-    { r \in [it : RecTypes, msg : HsMsgs, sealed : BOOLEAN, auth : BOOLEAN, gen : BOOLEAN,
+    { r \in [it : RecTypes, msg : HsMsgs, sealed : BOOLEAN, auth : BOOLEAN, gen : BOOLEAN, free : BOOLEAN, frag : BOOLEAN,
              alvl : {1, 2}, adesc : {0, 10}] :
         /\ (r.auth => r.sealed)
         /\ (r.it # "hs" => r.msg = "FINISHED")            \* msg irrelevant unless handshake
         /\ (r.it # "alert" => r.alvl = 1 /\ r.adesc = 10) \* alert fields irrelevant otherwise
         /\ (r.gen /\ r.sealed => r.auth)                  \* what the honest peer sends verifies
-        /\ (r.it = "junk" => ~r.gen) }
+        /\ (r.it = "junk" => ~r.gen)
+        /\ (r.free => ~r.sealed)
+        /\ (r.frag => ~r.gen /\ ~r.auth)
+        /\ (~r.sealed /\ ~r.gen => r.free) }
 
 CfgSpace(role, dtls) ==
     { c \in [kx : KxSet, resumed : BOOLEAN, cauth : BOOLEAN, tick : BOOLEAN, psk13 : BOOLEAN,
@@ -39,10 +42,9 @@ MCRecv ==
         LET s == sess[E]
             isHello == r.it = "hs" /\ ((r.msg = "SERVER_HELLO" /\ s.role = "C") \/ (r.msg = "CLIENT_HELLO" /\ s.role = "S"))
             cs  == IF isHello /\ ~s.helloDone THEN CfgSpace(s.role, s.cfg.dtls) ELSE {s.cfg}
-            oks == IF r.it \in {"hs", "alert"} /\ ~r.gen THEN BOOLEAN ELSE {TRUE}
         IN
         IF Live(s)
-        THEN \E c \in cs, ok \in oks :
+        THEN \E c \in cs, ok \in AllowedChoices(s, r) :
                 \* an endpoint that did not enable TLS 1.3 cannot negotiate it
                 /\ (s.fam = "L" => c.fam = "L")
                 /\ sess' = [sess EXCEPT ![E] = Recv(s, r, c, ok).next]
